@@ -215,6 +215,7 @@ def hostile_lines(rng, names):
 # documents
 # --------------------------------------------------------------------------------------------------
 LY0 = dict(sep="\n", ind="", sig="```", lang="mech")
+FAILING_RHS = ["undefinedthing + 1", "undefinedthing + 1", '1 + "a"', "[1 2 3] + [1 2]", "nosuchfn(1)", '"a"<u8>', "true + 1"]
 
 
 def chunks(rng, prog, maxlen=3):
@@ -245,7 +246,9 @@ def make_doc(rng, stream, size):
             cand = [v for v in main_names if v not in own]
             bad = dict(text="leak%s := %s" % (n, rng.choice(cand)), defs=[], uses=["!"], force=True) if cand else None
         elif kind < 0.7:
-            bad = dict(text="bad%s := undefinedthing + 1" % n, defs=[], uses=["!"], force=True)
+            # errors raised by the interpreter front end carry source tokens, those raised by library function
+            # compilers (kind / shape mismatch, missing function) do not: both must stay inside the fence
+            bad = dict(text="bad%s := %s" % (n, rng.choice(FAILING_RHS)), defs=[], uses=["!"], force=True)
         else:
             d = [v for s in p for v in s["defs"]]
             rv = rng.choice(d) if d else None
@@ -259,7 +262,7 @@ def make_doc(rng, stream, size):
         if other and rng.random() < 0.5:
             bad = dict(text="leakmain := %s" % rng.choice(other), defs=[], uses=["!"], force=True)
         else:
-            bad = dict(text="badmain := undefinedthing + 1", defs=[], uses=["!"], force=True)
+            bad = dict(text="badmain := %s" % rng.choice(FAILING_RHS), defs=[], uses=["!"], force=True)
         main_prog.insert(rng.randint(1, len(main_prog)), bad)
     # cut into elements
     streams = []
